@@ -30,7 +30,7 @@ HAZ = {1: "skip-hazard1:skip-after-skip-pending-imcu-row",
 
 SAMPS_STD = ["11", "111111", "211111", "221111", "121111", "411111", "141111"]      # gray 444 422 420 440 411 441
 SAMPS_ODD = ["221212", "222111", "212111", "311111", "131111", "421111", "241111", "11111111", "22111122", "21111121", "22",
-             "141212", "241212", "241111", "141212"]
+             "141212", "241111", "141212"]
 SF = [(2, 1), (15, 8), (7, 4), (13, 8), (3, 2), (11, 8), (5, 4), (9, 8), (1, 1), (7, 8), (3, 4), (5, 8), (1, 2), (3, 8), (1, 4), (1, 8)]
 MCUW = {"11": 8, "111111": 8, "211111": 16, "221111": 16, "121111": 8, "411111": 32, "141111": 8}
 
@@ -369,6 +369,9 @@ def run_cases(ctx, cases, exes, drv, flavours):
             impl = next((outs[fl][0][i] for fl in flavours if outs[fl][0][i] and not outs[fl][0][i].startswith("<crash")), None)
         if impl is None:
             ctx.count(stream + ("-crash" if crashed else "-notrun"), 1, ("crash", hz) if crashed else None)
+            continue
+        if impl.startswith("enc-err"):          # the real encoder refuses this frame (e.g. > 10 blocks per MCU): not a case
+            ctx.count("encoder-rejected", 1, None)
             continue
         ihead, iprov, px, dup = canon_impl(impl)
         # ---- does the implementation do exactly what the faithful model predicts? ----
